@@ -67,7 +67,8 @@ func copyTree(src, dst string) {
 }
 
 func (r *Run) Snapshot() *Snapshot {
-	s := &Snapshot{dir: filepath.Join(r.W.Root, "snap")}
+	r.nsnap++
+	s := &Snapshot{dir: filepath.Join(r.W.Root, fmt.Sprintf("snap%d", r.nsnap))}
 	copyTree(r.W.Proj, s.dir)
 	s.clock = *r.W.Clock
 	s.crng = *r.W.Clock.rng
